@@ -13,6 +13,7 @@ import (
 	"io"
 	"net"
 	"net/http"
+	"reflect"
 	"slices"
 	"sort"
 	"strings"
@@ -161,7 +162,9 @@ func decisionTable(r *ev.Run) {
 		srv := mux.Server(host)
 		for si := sh; si < len(sets); si += nShard {
 			set := sets[si]
-			for _, h3mode := range []int{0, 1, 2} { // HTTP3Transport: nil / set and failing / set and answering
+			for _, h3mode := range []int{0, 1, 2, 4, 5, 6} { // HTTP3Transport: nil / set and failing / set and answering; +4: all service records name ONE shared target
+				sharedTarget := h3mode >= 4
+				h3mode &= 3
 				withH3 := h3mode > 0
 				var rrs []dnsref.RR
 				for i, rc := range set {
@@ -176,6 +179,8 @@ func decisionTable(r *ev.Run) {
 					target := ""
 					if rc.Prio == 0 {
 						target = "alias-target.example"
+					} else if sharedTarget {
+						target = "svc.example" // the records differ in protocol and port only; dropping one must not take the name's addresses with it
 					}
 					rrs = append(rrs, dnsref.RR{Name: "a.example", Type: 65, Class: 1, TTL: 60, Fields: dnsref.SVCB(uint16(rc.Prio), target, ps)})
 				}
@@ -185,6 +190,8 @@ func decisionTable(r *ev.Run) {
 						return dohmem.Answer{Records: rrs}
 					case name == "a.example" && t == 1:
 						return dohmem.Answer{Records: []dnsref.RR{{Name: name, Type: 1, Class: 1, TTL: 60, Fields: []dnsref.Field{{Raw: []byte{192, 0, 2, 1}}}}}}
+					case name == "svc.example" && t == 1:
+						return dohmem.Answer{Records: []dnsref.RR{{Name: name, Type: 1, Class: 1, TTL: 60, Fields: []dnsref.Field{{Raw: []byte{192, 0, 2, 2}}}}}}
 					}
 					return dohmem.Answer{}
 				}
@@ -192,6 +199,7 @@ func decisionTable(r *ev.Run) {
 				tr.Resolver, _ = ech.NewResolver("https://" + host + "/dns-query")
 				var mu sync.Mutex
 				var dialed []int
+				tcpDials := 0
 				tr.Dialer.MaxConcurrency = 1
 				tr.Dialer.ConcurrencyDelay = time.Millisecond // a failure that is reported before the feeder waits does not wake it: keep the fallback delay short
 				tr.Dialer.DialFunc = func(ctx context.Context, network, addr string, tc *tls.Config) (*tls.Conn, error) {
@@ -203,6 +211,9 @@ func decisionTable(r *ev.Run) {
 					if ctx.Err() == nil || true {
 						dialed = append(dialed, port-1000)
 					}
+					if strings.HasPrefix(network, "tcp") {
+						tcpDials++
+					}
 					return nil, errors.New("refused")
 				}
 				h3 := &h3RT{dialer: tr.Dialer, respond: h3mode == 2}
@@ -213,7 +224,7 @@ func decisionTable(r *ev.Run) {
 				resp, err := tr.RoundTrip(req)
 				tr.HTTPTransport.CloseIdleConnections()
 				wantH3, wantKept := model(set, withH3)
-				replay := map[string]any{"records": set, "http3_transport_set": withH3, "http3_transport_answers": h3mode == 2}
+				replay := map[string]any{"records": set, "http3_transport_set": withH3, "http3_transport_answers": h3mode == 2, "records_share_one_target_name": sharedTarget}
 				switch {
 				case wantH3 && h3mode == 2:
 					// the HTTP/3 round-tripper answered: the caller gets that response, attributed to the request the caller made
@@ -225,6 +236,11 @@ func decisionTable(r *ev.Run) {
 				case err == nil:
 					r.Violation("decision:request-succeeded", "request succeeded although every dial fails", replay)
 				}
+				mu.Lock()
+				if wantH3 && tcpDials > 0 {
+					r.Violation("decision:tcp-dial-although-h3-chosen", fmt.Sprintf("HTTP/3 was chosen (and %s), yet %d TCP dial(s) were made with the record set kept for HTTP/3", map[bool]string{true: "answered", false: "failed"}[h3mode == 2], tcpDials), replay)
+				}
+				mu.Unlock()
 				if (h3.called > 0) != wantH3 {
 					r.Violation(fmt.Sprintf("decision:use-h3=%v-want-%v", h3.called > 0, wantH3), fmt.Sprintf("HTTP/3 round-tripper used: %v, model says %v", h3.called > 0, wantH3), replay)
 				}
@@ -241,7 +257,7 @@ func decisionTable(r *ev.Run) {
 						r.Violation("decision:records-handed-to-dialer", fmt.Sprintf("dial targets came from records %v, model keeps %v (use h3 = %v)", got, want, wantH3), replay)
 					}
 				}
-				r.Eval(fmt.Sprintf("%+v|%v", set, h3mode), fmt.Sprintf("decision: h3=%v kept=%d", wantH3, len(want)))
+				r.Eval(fmt.Sprintf("%+v|%v|%v", set, h3mode, sharedTarget), fmt.Sprintf("decision: h3=%v kept=%d", wantH3, len(want)))
 				if si == 77 {
 					r.Sample(replay)
 				}
@@ -440,6 +456,16 @@ func runHistory(hc histCase, host string) (key, what string) {
 	defer func() {
 		tr.HTTPTransport.CloseIdleConnections()
 	}()
+	// the Transport's TLSConfig is the caller's: requests must leave it as it was (C17's clause, through the Transport)
+	cfgBefore := tr.TLSConfig.Clone()
+	cfgChanged := func() string {
+		c := tr.TLSConfig
+		if c.ServerName != cfgBefore.ServerName || !reflect.DeepEqual(c.NextProtos, cfgBefore.NextProtos) || !reflect.DeepEqual(c.EncryptedClientHelloConfigList, cfgBefore.EncryptedClientHelloConfigList) ||
+			c.MinVersion != cfgBefore.MinVersion || c.MaxVersion != cfgBefore.MaxVersion || c.InsecureSkipVerify != cfgBefore.InsecureSkipVerify || c.RootCAs != cfgBefore.RootCAs {
+			return fmt.Sprintf("ServerName %q -> %q, NextProtos %q -> %q, ECH list %x -> %x", cfgBefore.ServerName, c.ServerName, cfgBefore.NextProtos, c.NextProtos, cfgBefore.EncryptedClientHelloConfigList, c.EncryptedClientHelloConfigList)
+		}
+		return ""
+	}
 	hasHTTPS := hc.Zone != 0
 	for step, oi := range hc.Seq {
 		o := origins[oi]
@@ -492,6 +518,9 @@ func runHistory(hc histCase, host string) (key, what string) {
 		}
 		if resp.Request != req {
 			return "resp-request-not-callers", tag + ": resp.Request is not the caller's request"
+		}
+		if d := cfgChanged(); d != "" {
+			return "transport-tls-config-mutated", fmt.Sprintf("step %d: the Transport's TLSConfig (the caller's) was modified by a request: %s", step, d)
 		}
 		if req.URL.String() != urlBefore {
 			return "callers-request-modified", fmt.Sprintf("%s: the caller's request URL was changed to %s", tag, req.URL.String())
